@@ -94,6 +94,8 @@ AddTmp(S, t, k) == DelTmp(S, t) \cup {<<t, k>>}
 NeverBuilt == [built |-> FALSE, out |-> 0, deps |-> {}, stamped |-> FALSE, val |-> NoVal]
 
 DoVer(df) == fs[df].val.v          \* version of the rule text currently in df
+\* the content c was made by reading the first version of the hand-written file src (as its first input)
+FromFirst(c, src) == Len(c.d) >= 1 /\ c.d[1].n = src /\ c.d[1].k = "user" /\ c.d[1].v = 1
 \* what reading n gives (through a symbolic link: the content of what it points to)
 ReadVal(n) == IF ~fs[n].ex THEN NoVal
               ELSE IF fs[n].lnk # "" THEN (IF fs[fs[n].lnk].ex THEN fs[fs[n].lnk].val ELSE NoVal)
@@ -587,14 +589,23 @@ ScriptStep(s) ==
               e   == EnvOf(s)
               nxt == [S EXCEPT !.opi = S.opi + 1]
               \* `watch x` is the idiom: if x exists, redo-ifchange x, else redo-ifcreate x
+              \* `ifchangeif f src x...` is a dependency list computed from data (redo-ifchange $(cat list)): the
+              \* script asks for x... unless what it reads in f was made from the first version of the source src
               op  == IF o.op = "watch"
-                     THEN (IF Exists(fs, o.args[1]) THEN "ifchange" ELSE "ifcreate") ELSE o.op
+                     THEN (IF Exists(fs, o.args[1]) THEN "ifchange" ELSE "ifcreate")
+                     ELSE IF o.op = "ifchangeif"
+                     THEN (IF FromFirst(ReadVal(o.args[1]), o.args[2]) THEN "skip" ELSE "ifchange")
+                     ELSE o.op
+              oa  == IF o.op = "ifchangeif" THEN SubSeq(o.args, 3, Len(o.args)) ELSE o.args
           IN
           CASE op = "ifchange" ->
                  LET k == s \o <<ToString(S.opi)>> IN
                  /\ procs' = Spawn([procs EXCEPT ![s].kid = k, ![s].tok = 0,
-                                      ![s].decl = @ \cup {[m |-> "m", n |-> o.args[i]] : i \in 1..Len(o.args)}], k,
-                                   SubRedo(S, s, o.args, FALSE, FALSE, S.t, S.cyc))
+                                      ![s].decl = @ \cup {[m |-> "m", n |-> oa[i]] : i \in 1..Len(oa)}], k,
+                                   SubRedo(S, s, oa, FALSE, FALSE, S.t, S.cyc))
+                 /\ UNCHANGED <<fs, tmp, clock, w, runid, locks, cmd, hist, ran, ncmds, pool, gh>>
+            [] op = "skip" ->
+                 /\ procs' = [procs EXCEPT ![s] = nxt]
                  /\ UNCHANGED <<fs, tmp, clock, w, runid, locks, cmd, hist, ran, ncmds, pool, gh>>
             [] op = "redo" ->
                  \* a forced `redo args` inside the script (no dependency is declared); with ch = "ignore" the
